@@ -16,8 +16,8 @@
    [1 - eps * #full states, 1]; the same for pdist_calc on a normalised mixture
    of inputs, whose total is exactly 1 on a lossy circuit. *)
 From Coq Require Import ZArith Arith Lia List Bool Permutation Reals Lra.
-From LW Require Import Base.Num Base.Sums Base.Mat Base.RInst Model.State Model.Fock
-     Proofs.StateP Proofs.PermP Proofs.SlosP Proofs.FockUnitP.
+From LW Require Import Base.Sx Base.Num Base.Sums Base.Mat Base.RInst Model.State Model.Fock
+     Proofs.StateP Proofs.PermP Proofs.SlosP Proofs.FockUnitP Proofs.SimP.
 Import ListNotations.
 Open Scope nat_scope.
 
@@ -347,3 +347,930 @@ Section DictR.
     (forall a x, f a x = g a x) -> fold_left f L a = fold_left g L a.
   Proof. intros H. revert a. induction L as [|x L IH]; intros a; simpl; [reflexivity|]. rewrite H. apply IH. Qed.
 End DictR.
+
+(* ------------------------------------------------------------------ *)
+(* marginalisation over the loss modes                                 *)
+(* ------------------------------------------------------------------ *)
+Section Marginal.
+  Local Open Scope R_scope.
+  Notation pdict := (@pdict R).
+
+  Lemma firstn_app_exact {A} (k lo : list A) n : length k = n -> firstn n (k ++ lo) = k.
+  Proof. intros <-. rewrite firstn_app, Nat.sub_diag, firstn_all. simpl. apply app_nil_r. Qed.
+
+  Lemma osum_firstn_le n t : (osum (firstn n t) <= osum t)%nat.
+  Proof. rewrite <- (firstn_skipn n t) at 2. rewrite osum_app. lia. Qed.
+
+  Lemma vac_test n t : length t = n -> (osum t =? 0)%nat = nlist_eqb t (repeat 0%nat n).
+  Proof.
+    intros Hl. destruct (Nat.eqb_spec (osum t) 0) as [E|E]; symmetry.
+    - apply nlist_eqb_eq. rewrite (osum_zero t E), Hl. reflexivity.
+    - apply nlist_eqb_neq. intros ->. apply E. apply osum_repeat0.
+  Qed.
+
+  Lemma osum_pos_length s : osum s <> 0%nat -> (0 < length s)%nat.
+  Proof. destruct s; simpl; [intros H; contradiction H; reflexivity|lia]. Qed.
+
+  Lemma focks_zero l : focks l 0 = [repeat 0%nat l].
+  Proof. apply fock_enum_zero. apply focks_enum. Qed.
+
+  (* the full states whose circuit part is k are k ++ lo, lo over the loss-mode
+     occupations of the remaining photons *)
+  Lemma marg_reindex L n l N k (g : list nat -> R) :
+    fock_enum L (n + l) N -> length k = n -> (osum k <= N)%nat ->
+    suml rops L (fun t => if nlist_eqb (firstn n t) k then g t else 0) =
+    suml rops (focks l (N - osum k)) (fun lo => g (k ++ lo)).
+  Proof.
+    intros [Hnd Hin] Hk Hle.
+    rewrite (sumR_filter (fun t => nlist_eqb (firstn n t) k)), (sumR_map (app k)).
+    apply (suml_perm (r:=rops)). apply NoDup_Permutation.
+    - apply NoDup_filter. exact Hnd.
+    - apply nodup_map_inj; [intros x y H; apply app_inv_head in H; exact H|apply focks_nodup].
+    - intros t. rewrite filter_In, in_map_iff, Hin. split.
+      + intros [[Hl Hs] E]. apply nlist_eqb_eq in E. exists (skipn n t). split.
+        * rewrite <- E. apply firstn_skipn.
+        * apply focks_spec. rewrite skipn_length, Hl. split; [lia|].
+          rewrite <- (firstn_skipn n t), osum_app, E in Hs. lia.
+      + intros [lo [<- Hlo]]. apply focks_spec in Hlo. destruct Hlo as [Hl Hs].
+        rewrite app_length, osum_app, (firstn_app_exact k lo n Hk), nlist_eqb_refl.
+        repeat split; lia.
+  Qed.
+
+  Lemma prob_of_mismatch (U : @mat C) ins outs : osum outs <> osum ins -> prob_of rops U ins outs = 0.
+  Proof.
+    intros H. rewrite prob_of_eq, (perm_ml_length (r:=cops)) by (rewrite !expand_length; exact H).
+    unfold cnorm2. simpl. ring.
+  Qed.
+
+  Lemma ins_pad_length (ins : list nat) n l : length ins = n -> length (ins ++ repeat 0%nat l) = (n + l)%nat.
+  Proof. intros <-. rewrite app_length, repeat_length. reflexivity. Qed.
+
+  Lemma ins_pad_osum (ins : list nat) l : osum (ins ++ repeat 0%nat l) = osum ins.
+  Proof. rewrite osum_app, osum_repeat0. lia. Qed.
+
+  (* a pattern with more photons than were injected has probability 0 *)
+  Lemma margt_excess eps U n l ins k : (osum ins < osum k)%nat -> margt eps U n l ins k = 0.
+  Proof.
+    intros H. unfold margt. apply sumR_zero. intros lo _.
+    rewrite prob_of_mismatch; [apply thr_of_0|]. rewrite osum_app, ins_pad_osum. lia.
+  Qed.
+
+  Lemma marg_excess U n l ins k : (osum ins < osum k)%nat -> marg U n l ins k = 0.
+  Proof.
+    intros H. unfold marg. apply sumR_zero. intros lo _.
+    apply prob_of_mismatch. rewrite osum_app, ins_pad_osum. lia.
+  Qed.
+
+  Lemma thr_le eps p : 0 <= p -> 0 <= thr eps p <= p.
+  Proof. intros Hp. unfold thr. destruct (klt rops eps p); lra. Qed.
+
+  Lemma margt_0 U n l ins k : margt 0 U n l ins k = marg U n l ins k.
+  Proof. unfold margt, marg. apply sumR_ext. intros lo _. apply thr_0. apply prob_of_nonneg. Qed.
+
+  Lemma margt_le eps U n l ins k : margt eps U n l ins k <= marg U n l ins k.
+  Proof. unfold margt, marg. apply sumR_le. intros lo _. apply thr_le. apply prob_of_nonneg. Qed.
+
+  Lemma margt_nonneg eps U n l ins k : 0 <= margt eps U n l ins k.
+  Proof. unfold margt. apply sumR_nonneg. intros lo _. apply thr_le. apply prob_of_nonneg. Qed.
+
+  Lemma marg_nonneg U n l ins k : 0 <= marg U n l ins k.
+  Proof. unfold marg. apply sumR_nonneg. intros lo _. apply prob_of_nonneg. Qed.
+
+  Lemma margt_lower eps U n l ins k :
+    0 <= eps -> marg U n l ins k - eps * INR (length (focks l (osum ins - osum k))) <= margt eps U n l ins k.
+  Proof.
+    intros He. unfold margt, marg.
+    set (F := focks l (osum ins - osum k)). set (p := fun lo => prob_of rops U (ins ++ repeat 0%nat l) (k ++ lo)).
+    assert (E : suml rops F p - eps * INR (length F) = suml rops F (fun lo => p lo + - eps)).
+    { rewrite sumR_add, sumR_const. lra. }
+    rewrite E. apply sumR_le. intros lo _. unfold p.
+    pose proof (thr_bounds eps (prob_of rops U (ins ++ repeat 0%nat l) (k ++ lo)) He (prob_of_nonneg _ _ _)). lra.
+  Qed.
+
+  (* the keyed sum of the loops, for every pattern *)
+  Lemma keyed_sum L n l (U : @mat C) ins' eps k :
+    fock_enum L (n + l) (osum ins') -> length k = n ->
+    suml rops L (fun t => if nlist_eqb (firstn n t) k then thr eps (prob_of rops U ins' t) else 0) =
+    suml rops (focks l (osum ins' - osum k)) (fun lo => thr eps (prob_of rops U ins' (k ++ lo))).
+  Proof.
+    intros HL Hk. destruct (le_lt_dec (osum k) (osum ins')) as [Hle|Hgt].
+    - apply (marg_reindex L n l (osum ins') k (fun t => thr eps (prob_of rops U ins' t)) HL Hk Hle).
+    - rewrite !sumR_zero; [reflexivity| |].
+      + intros lo _. rewrite prob_of_mismatch; [apply thr_of_0|]. rewrite osum_app. lia.
+      + intros t Ht. destruct (nlist_eqb (firstn n t) k) eqn:E; [|reflexivity].
+        apply nlist_eqb_eq in E. apply (proj2 HL) in Ht. destruct Ht as [_ Hs].
+        pose proof (osum_firstn_le n t). rewrite E in H. lia.
+  Qed.
+
+  (* ---------------- the two loops as guarded accumulations ---------------- *)
+  Definition perm_pd (eps : R) (n : nat) (U : @mat C) (ins' : list nat) (outs : list (list nat)) : pdict :=
+    pd_fold (fun os => negb (osum (firstn n os) =? 0)%nat && klt rops eps (prob_of rops U ins' os))
+            (firstn n) (prob_of rops U ins') outs [].
+  Definition slos_pd (eps : R) (n : nat) (ins' : list nat) (dict : list (list nat * C)) : pdict :=
+    pd_fold (fun kv => klt rops eps (slos_prob rops ins' kv)) (fun kv => firstn n (fst kv))
+            (slos_prob rops ins') dict [].
+
+  Lemma full_dist_eq b eps n l (U : @mat C) ins :
+    full_dist rops b eps n l U ins =
+    if (osum ins =? 0)%nat then [(repeat 0%nat n, 1)] else
+    let ins' := ins ++ repeat 0%nat l in
+    match b with
+    | Permanent =>
+        let pd := perm_pd eps n U ins' (fock_sums (length ins') (osum ins')) in
+        if klt rops (pd_total rops pd) 1 && negb (l =? 0)%nat
+        then pd_set pd (repeat 0%nat n) (1 - pd_total rops pd) else pd
+    | Slos => slos_pd eps n ins' (slos cops (n + l) U ins')
+    end.
+  Proof.
+    unfold full_dist. destruct (osum ins =? 0)%nat; [reflexivity|]. cbv zeta. destruct b.
+    - assert (E : forall outs d0,
+                 fold_left (fun pd os =>
+                              if (osum (firstn n os) =? 0)%nat then pd else
+                              let p := prob_of rops U (ins ++ repeat 0%nat l) os in
+                              if klt rops eps p then pd_add rops pd (firstn n os) p else pd) outs d0 =
+                 pd_fold (fun os => negb (osum (firstn n os) =? 0)%nat &&
+                                    klt rops eps (prob_of rops U (ins ++ repeat 0%nat l) os))
+                         (firstn n) (prob_of rops U (ins ++ repeat 0%nat l)) outs d0).
+      { intros outs d0. unfold pd_fold. apply fold_left_ext. intros a x.
+        destruct (osum (firstn n x) =? 0)%nat; reflexivity. }
+      unfold perm_pd. rewrite <- E. reflexivity.
+    - reflexivity.
+  Qed.
+
+  Lemma pd_val_nil t : pd_val [] t = 0.
+  Proof. reflexivity. Qed.
+
+  Lemma perm_pd_val eps n l U ins' L k :
+    fock_enum L (n + l) (osum ins') -> length k = n ->
+    pd_val (perm_pd eps n U ins' L) k =
+    if (osum k =? 0)%nat then 0
+    else suml rops (focks l (osum ins' - osum k)) (fun lo => thr eps (prob_of rops U ins' (k ++ lo))).
+  Proof.
+    intros HL Hk. unfold perm_pd. rewrite pd_fold_val, pd_val_nil, Rplus_0_l.
+    destruct (Nat.eqb_spec (osum k) 0) as [Hz|Hnz].
+    - apply sumR_zero. intros t _. destruct (nlist_eqb (firstn n t) k) eqn:E.
+      + apply nlist_eqb_eq in E. rewrite E, (proj2 (Nat.eqb_eq _ _) Hz). reflexivity.
+      + rewrite andb_false_r. reflexivity.
+    - rewrite <- (keyed_sum L n l U ins' eps k HL Hk). apply sumR_ext. intros t _.
+      destruct (nlist_eqb (firstn n t) k) eqn:E.
+      + apply nlist_eqb_eq in E. rewrite E, (proj2 (Nat.eqb_neq _ _) Hnz). cbn [negb andb].
+        rewrite andb_true_r. reflexivity.
+      + rewrite andb_false_r. reflexivity.
+  Qed.
+
+  Lemma perm_pd_total eps n U ins' L :
+    pd_total rops (perm_pd eps n U ins' L) =
+    suml rops L (fun t => if (osum (firstn n t) =? 0)%nat then 0 else thr eps (prob_of rops U ins' t)).
+  Proof.
+    unfold perm_pd. rewrite pd_fold_total, pd_total_nil, Rplus_0_l. apply sumR_ext. intros t _.
+    destruct (osum (firstn n t) =? 0)%nat; reflexivity.
+  Qed.
+
+  Lemma slos_keys_enum n (U : @mat C) ins' :
+    fock_enum (map fst (slos cops n U ins')) n (osum ins').
+  Proof. split; [apply (slos_keys_nodup (r:=cops))|intros t; apply (slos_keys (r:=cops))]. Qed.
+
+  Lemma slos_pd_val eps n l U ins' k :
+    length k = n ->
+    pd_val (slos_pd eps n ins' (slos cops (n + l) U ins')) k =
+    suml rops (focks l (osum ins' - osum k)) (fun lo => thr eps (prob_of rops U ins' (k ++ lo))).
+  Proof.
+    intros Hk. unfold slos_pd. rewrite pd_fold_val, pd_val_nil, Rplus_0_l.
+    rewrite <- (keyed_sum (map fst (slos cops (n + l) U ins')) n l U ins' eps k (slos_keys_enum _ _ _) Hk).
+    rewrite <- (sumR_map fst).
+    apply sumR_ext. intros kv Hin. rewrite (slos_entry_prob (n + l) U ins' kv Hin). cbv beta.
+    destruct kv as [t c]. cbn [fst].
+    destruct (nlist_eqb (firstn n t) k); [|rewrite andb_false_r; reflexivity].
+    rewrite andb_true_r. reflexivity.
+  Qed.
+
+  Lemma slos_pd_total eps n N U ins' :
+    pd_total rops (slos_pd eps n ins' (slos cops N U ins')) =
+    suml rops (map fst (slos cops N U ins')) (fun t => thr eps (prob_of rops U ins' t)).
+  Proof.
+    unfold slos_pd. rewrite pd_fold_total, pd_total_nil, Rplus_0_l, <- (sumR_map fst).
+    apply sumR_ext. intros kv Hin. rewrite (slos_entry_prob N U ins' kv Hin). reflexivity.
+  Qed.
+End Marginal.
+
+(* ------------------------------------------------------------------ *)
+(* Backend.full_probability_distribution                               *)
+(* ------------------------------------------------------------------ *)
+Section FullDist.
+  Local Open Scope R_scope.
+  Notation pdict := (@pdict R).
+
+  (* the vacuum bookkeeping of the permanent branch *)
+  Definition perm_final (n l : nat) (pd : pdict) : pdict :=
+    if klt rops (pd_total rops pd) 1 && negb (l =? 0)%nat
+    then pd_set pd (repeat 0%nat n) (1 - pd_total rops pd) else pd.
+
+  Lemma full_dist_cases b eps n l (U : @mat C) ins :
+    full_dist rops b eps n l U ins =
+    if (osum ins =? 0)%nat then [(repeat 0%nat n, 1)] else
+    match b with
+    | Permanent =>
+        perm_final n l (perm_pd eps n U (ins ++ repeat 0%nat l)
+                                (fock_sums (length (ins ++ repeat 0%nat l)) (osum (ins ++ repeat 0%nat l))))
+    | Slos => slos_pd eps n (ins ++ repeat 0%nat l) (slos cops (n + l) U (ins ++ repeat 0%nat l))
+    end.
+  Proof. rewrite full_dist_eq. reflexivity. Qed.
+
+  Lemma fock_sums_enum_pad ins n l :
+    length ins = n -> osum ins <> 0%nat ->
+    fock_enum (fock_sums (length (ins ++ repeat 0%nat l)) (osum (ins ++ repeat 0%nat l))) (n + l)
+              (osum (ins ++ repeat 0%nat l)).
+  Proof.
+    intros Hl Hs.
+    assert (H : (0 < length (ins ++ repeat 0%nat l))%nat) by (apply osum_pos_length; rewrite ins_pad_osum; exact Hs).
+    rewrite (ins_pad_length ins n l Hl) in *. apply fock_sums_enum. exact H.
+  Qed.
+
+  (* ---- the accumulated dictionary of the permanent loop ---- *)
+  Lemma perm_pd_keys eps n l U ins' L t :
+    fock_enum L (n + l) (osum ins') -> In t (pd_keys (perm_pd eps n U ins' L)) ->
+    length t = n /\ (osum t <= osum ins')%nat /\ osum t <> 0%nat.
+  Proof.
+    intros [_ HL] Hin. unfold perm_pd in Hin. apply pd_fold_keys in Hin.
+    destruct Hin as [[]|[os [Hos [Hc <-]]]].
+    apply HL in Hos. destruct Hos as [Hlen Hs]. apply andb_true_iff in Hc. destruct Hc as [Hc _].
+    apply negb_true_iff, Nat.eqb_neq in Hc.
+    split; [rewrite firstn_length; lia|]. split; [rewrite <- Hs; apply osum_firstn_le|exact Hc].
+  Qed.
+
+  Lemma perm_pd_nodup eps n U ins' L : NoDup (pd_keys (perm_pd eps n U ins' L)).
+  Proof. apply pd_fold_nodup. constructor. Qed.
+
+  Lemma perm_pd_nonneg eps n U ins' L : pd_nonneg (perm_pd eps n U ins' L).
+  Proof. apply pd_fold_nonneg; [intros ? ? []|intros; apply prob_of_nonneg]. Qed.
+
+  Lemma perm_pd_no_vac eps n l U ins' L :
+    fock_enum L (n + l) (osum ins') -> ~ In (repeat 0%nat n) (pd_keys (perm_pd eps n U ins' L)).
+  Proof.
+    intros HL Hin. apply (perm_pd_keys eps n l U ins' L _ HL) in Hin. destruct Hin as [_ [_ H]].
+    apply H, osum_repeat0.
+  Qed.
+
+  (* ---- the accumulated dictionary of the slos loop ---- *)
+  Lemma slos_pd_keys eps n l U ins' t :
+    In t (pd_keys (slos_pd eps n ins' (slos cops (n + l) U ins'))) ->
+    length t = n /\ (osum t <= osum ins')%nat.
+  Proof.
+    intros Hin. unfold slos_pd in Hin. apply pd_fold_keys in Hin.
+    destruct Hin as [[]|[kv [Hkv [_ <-]]]].
+    assert (Hk : In (fst kv) (map fst (slos cops (n + l) U ins'))) by (apply in_map; exact Hkv).
+    apply (slos_keys (r:=cops)) in Hk. destruct Hk as [Hlen Hs].
+    split; [rewrite firstn_length; lia|]. rewrite <- Hs. apply osum_firstn_le.
+  Qed.
+
+  Lemma slos_pd_nodup eps n ins' dict : NoDup (pd_keys (slos_pd eps n ins' dict)).
+  Proof. apply pd_fold_nodup. constructor. Qed.
+
+  Lemma slos_pd_nonneg eps n N U ins' : pd_nonneg (slos_pd eps n ins' (slos cops N U ins')).
+  Proof.
+    apply pd_fold_nonneg; [intros ? ? []|]. intros kv Hin _.
+    rewrite (slos_entry_prob N U ins' kv Hin). apply prob_of_nonneg.
+  Qed.
+
+  (* ---- the vacuum step ---- *)
+  Lemma perm_final_keys n l pd t :
+    In t (pd_keys (perm_final n l pd)) -> In t (pd_keys pd) \/ t = repeat 0%nat n.
+  Proof. unfold perm_final. destruct (_ && _); [apply pd_set_keys|intros H; left; exact H]. Qed.
+
+  Lemma perm_final_nodup n l pd : NoDup (pd_keys pd) -> NoDup (pd_keys (perm_final n l pd)).
+  Proof. unfold perm_final. destruct (_ && _); [apply pd_set_nodup|intros H; exact H]. Qed.
+
+  Lemma perm_final_nonneg n l pd : pd_nonneg pd -> pd_nonneg (perm_final n l pd).
+  Proof.
+    unfold perm_final. intros H. destruct (klt rops (pd_total rops pd) 1) eqn:E; cbn [andb]; [|exact H].
+    destruct (negb (l =? 0)%nat); [|exact H]. apply klt_true in E. apply pd_set_nonneg; [exact H|lra].
+  Qed.
+
+  Lemma perm_final_val_nonvac n l pd k : k <> repeat 0%nat n -> pd_val (perm_final n l pd) k = pd_val pd k.
+  Proof.
+    intros Hk. unfold perm_final. destruct (_ && _); [|reflexivity].
+    rewrite pd_set_val, (proj2 (nlist_eqb_neq (repeat 0%nat n) k)); [reflexivity|]. intros E. apply Hk. symmetry. exact E.
+  Qed.
+
+  Lemma perm_final_total n l pd :
+    ~ In (repeat 0%nat n) (pd_keys pd) ->
+    pd_total rops (perm_final n l pd) =
+    if klt rops (pd_total rops pd) 1 && negb (l =? 0)%nat then 1 else pd_total rops pd.
+  Proof.
+    intros H. unfold perm_final. destruct (_ && _); [|reflexivity].
+    rewrite pd_set_total, (pd_val_absent pd _ H). lra.
+  Qed.
+
+  (* ---------------- (V1) every non-vacuum pattern, every eps, every matrix ---------------- *)
+  Theorem dist_value_nonvac b eps n l (U : @mat C) ins k :
+    length ins = n -> length k = n -> osum k <> 0%nat ->
+    pd_val (full_dist rops b eps n l U ins) k = margt eps U n l ins k.
+  Proof.
+    intros Hl Hk Hnz. rewrite full_dist_cases.
+    assert (Hkv : k <> repeat 0%nat n) by (intros ->; apply Hnz, osum_repeat0).
+    destruct (Nat.eqb_spec (osum ins) 0) as [Hz|Hne].
+    - rewrite margt_excess by lia. unfold pd_val. cbn [pd_get].
+      rewrite (proj2 (nlist_eqb_neq (repeat 0%nat n) k)); [reflexivity|]. intros E. apply Hkv. symmetry. exact E.
+    - unfold margt. rewrite <- (ins_pad_osum ins l). destruct b.
+      + rewrite (perm_final_val_nonvac n l _ k Hkv).
+        rewrite (perm_pd_val eps n l U _ _ k (fock_sums_enum_pad ins n l Hl Hne) Hk).
+        rewrite (proj2 (Nat.eqb_neq _ _) Hnz). reflexivity.
+      + apply slos_pd_val. exact Hk.
+  Qed.
+
+  Corollary dist_backend_independent_nonvac eps n l (U : @mat C) ins k :
+    length ins = n -> length k = n -> osum k <> 0%nat ->
+    pd_val (full_dist rops Permanent eps n l U ins) k = pd_val (full_dist rops Slos eps n l U ins) k.
+  Proof. intros Hl Hk Hnz. rewrite !dist_value_nonvac by assumption. reflexivity. Qed.
+
+  (* ---------------- (V2) keys, signs ---------------- *)
+  Theorem dist_keys b eps n l (U : @mat C) ins :
+    length ins = n ->
+    NoDup (pd_keys (full_dist rops b eps n l U ins)) /\
+    forall k, In k (pd_keys (full_dist rops b eps n l U ins)) -> length k = n /\ (osum k <= osum ins)%nat.
+  Proof.
+    intros Hl. rewrite full_dist_cases. destruct (Nat.eqb_spec (osum ins) 0) as [Hz|Hne].
+    - split; [constructor; [intros []|constructor]|]. intros k [E|[]]. simpl in E. subst k.
+      rewrite repeat_length, osum_repeat0. split; [reflexivity|lia].
+    - destruct b.
+      + split; [apply perm_final_nodup, perm_pd_nodup|]. intros k Hin.
+        apply perm_final_keys in Hin. destruct Hin as [Hin| ->].
+        * apply (perm_pd_keys eps n l U _ _ k (fock_sums_enum_pad ins n l Hl Hne)) in Hin.
+          rewrite ins_pad_osum in Hin. destruct Hin as [H1 [H2 _]]. split; assumption.
+        * rewrite repeat_length, osum_repeat0. split; [reflexivity|lia].
+      + split; [apply slos_pd_nodup|]. intros k Hin. apply slos_pd_keys in Hin.
+        rewrite ins_pad_osum in Hin. exact Hin.
+  Qed.
+
+  Theorem dist_nonneg b eps n l (U : @mat C) ins : pd_nonneg (full_dist rops b eps n l U ins).
+  Proof.
+    rewrite full_dist_cases. destruct (osum ins =? 0)%nat.
+    - intros k v [E|[]]. injection E as _ <-. lra.
+    - destruct b; [apply perm_final_nonneg, perm_pd_nonneg|apply slos_pd_nonneg].
+  Qed.
+
+  Lemma pd_val_wrong_length b eps n l (U : @mat C) ins k :
+    length ins = n -> length k <> n -> pd_val (full_dist rops b eps n l U ins) k = 0.
+  Proof.
+    intros Hl Hk. apply pd_val_absent. intros Hin. apply (proj2 (dist_keys b eps n l U ins Hl)) in Hin.
+    apply Hk. exact (proj1 Hin).
+  Qed.
+
+  (* ---------------- (V3) bounds for non-vacuum patterns ---------------- *)
+  Theorem dist_upper b eps n l (U : @mat C) ins k :
+    length ins = n -> length k = n -> osum k <> 0%nat ->
+    pd_val (full_dist rops b eps n l U ins) k <= marg U n l ins k.
+  Proof. intros Hl Hk Hnz. rewrite dist_value_nonvac by assumption. apply margt_le. Qed.
+
+  Theorem dist_lower b eps n l (U : @mat C) ins k :
+    0 <= eps -> length ins = n -> length k = n -> osum k <> 0%nat ->
+    marg U n l ins k - eps * INR (length (focks l (osum ins - osum k))) <=
+    pd_val (full_dist rops b eps n l U ins) k.
+  Proof. intros He Hl Hk Hnz. rewrite dist_value_nonvac by assumption. apply margt_lower. exact He. Qed.
+
+  (* ---------------- (V4) totals ---------------- *)
+  Lemma enum_thr_bounds eps N (U : @mat C) ins' L :
+    0 <= eps -> lunit cops N U -> length ins' = N -> fock_enum L N (osum ins') ->
+    1 - eps * INR (length (focks N (osum ins'))) <= suml rops L (fun t => thr eps (prob_of rops U ins' t)) <= 1.
+  Proof.
+    intros He HU Hl HL. pose proof (fock_unitarity_enum N U ins' L HU Hl HL) as H1.
+    assert (Hlen : length L = length (focks N (osum ins'))).
+    { apply Permutation_length. apply (fock_enum_perm L _ N (osum ins') HL (focks_enum _ _)). }
+    rewrite <- Hlen. split.
+    - assert (E : 1 - eps * INR (length L) = suml rops L (fun t => prob_of rops U ins' t + - eps)).
+      { pose proof (sumR_add L (fun t => prob_of rops U ins' t) (fun _ => - eps)) as Ea. cbv beta in Ea.
+        rewrite Ea, sumR_const, H1. lra. }
+      rewrite E. apply sumR_le. intros t _.
+      pose proof (thr_bounds eps _ He (prob_of_nonneg U ins' t)). lra.
+    - rewrite <- H1. apply sumR_le. intros t _. apply thr_le, prob_of_nonneg.
+  Qed.
+
+  (* the probability of all full states whose circuit part is empty *)
+  Lemma vac_sum L n l (U : @mat C) ins ins' :
+    ins' = ins ++ repeat 0%nat l -> fock_enum L (n + l) (osum ins') ->
+    suml rops L (fun t => if (osum (firstn n t) =? 0)%nat then prob_of rops U ins' t else 0) =
+    marg U n l ins (repeat 0%nat n).
+  Proof.
+    intros -> HL. unfold marg.
+    pose proof (marg_reindex L n l (osum (ins ++ repeat 0%nat l)) (repeat 0%nat n)
+                             (fun t => prob_of rops U (ins ++ repeat 0%nat l) t) HL (repeat_length _ _)) as H.
+    rewrite osum_repeat0 in H. rewrite ins_pad_osum in H. rewrite osum_repeat0, <- H by lia.
+    apply sumR_ext. intros t Ht. apply (proj2 HL) in Ht. destruct Ht as [Hlen _].
+    rewrite (vac_test n (firstn n t)) by (rewrite firstn_length; lia). reflexivity.
+  Qed.
+End FullDist.
+
+(* ------------------------------------------------------------------ *)
+(* unitary matrices: exactness at eps = 0, normalisation               *)
+(* ------------------------------------------------------------------ *)
+Section FullDistUnitary.
+  Local Open Scope R_scope.
+  Notation pdict := (@pdict R).
+
+  Lemma sumR_split {A} (L : list A) (c : A -> bool) (f : A -> R) :
+    suml rops L f = suml rops L (fun t => if c t then f t else 0) + suml rops L (fun t => if c t then 0 else f t).
+  Proof.
+    pose proof (sumR_add L (fun t => if c t then f t else 0) (fun t => if c t then 0 else f t)) as E.
+    cbv beta in E. rewrite <- E. apply sumR_ext. intros t _. destruct (c t); lra.
+  Qed.
+
+  (* the non-vacuum part of the full distribution *)
+  Lemma nonvac_sum L n l (U : @mat C) ins :
+    lunit cops (n + l) U -> length ins = n -> fock_enum L (n + l) (osum (ins ++ repeat 0%nat l)) ->
+    suml rops L (fun t => if (osum (firstn n t) =? 0)%nat then 0 else prob_of rops U (ins ++ repeat 0%nat l) t) =
+    1 - marg U n l ins (repeat 0%nat n).
+  Proof.
+    intros HU Hl HL.
+    pose proof (fock_unitarity_enum (n + l) U _ L HU (ins_pad_length ins n l Hl) HL) as H1.
+    pose proof (vac_sum L n l U ins _ eq_refl HL) as HV.
+    pose proof (sumR_split L (fun t => (osum (firstn n t) =? 0)%nat)
+                           (fun t => prob_of rops U (ins ++ repeat 0%nat l) t)) as E.
+    cbv beta in E. rewrite H1, HV in E. lra.
+  Qed.
+
+  Lemma perm_tb_le eps L n l (U : @mat C) ins :
+    lunit cops (n + l) U -> length ins = n -> fock_enum L (n + l) (osum (ins ++ repeat 0%nat l)) ->
+    pd_total rops (perm_pd eps n U (ins ++ repeat 0%nat l) L) <= 1 - marg U n l ins (repeat 0%nat n).
+  Proof.
+    intros HU Hl HL. rewrite perm_pd_total, <- (nonvac_sum L n l U ins HU Hl HL).
+    apply sumR_le. intros t _. destruct (_ =? _)%nat; [lra|]. apply thr_le, prob_of_nonneg.
+  Qed.
+
+  Lemma perm_tb_eps0 L n l (U : @mat C) ins :
+    lunit cops (n + l) U -> length ins = n -> fock_enum L (n + l) (osum (ins ++ repeat 0%nat l)) ->
+    pd_total rops (perm_pd 0 n U (ins ++ repeat 0%nat l) L) = 1 - marg U n l ins (repeat 0%nat n).
+  Proof.
+    intros HU Hl HL. rewrite perm_pd_total, <- (nonvac_sum L n l U ins HU Hl HL).
+    apply sumR_ext. intros t _. destruct (_ =? _)%nat; [reflexivity|]. apply thr_0, prob_of_nonneg.
+  Qed.
+
+  Lemma perm_tb_lossless eps L n (U : @mat C) ins' :
+    osum ins' <> 0%nat -> fock_enum L (n + 0) (osum ins') ->
+    pd_total rops (perm_pd eps n U ins' L) = suml rops L (fun t => thr eps (prob_of rops U ins' t)).
+  Proof.
+    intros Hne HL. rewrite perm_pd_total. apply sumR_ext. intros t Ht. apply (proj2 HL) in Ht.
+    destruct Ht as [Hlen Hs]. rewrite firstn_all2 by lia. rewrite Hs, (proj2 (Nat.eqb_neq _ _) Hne). reflexivity.
+  Qed.
+
+  Lemma marg_vac_lossless (U : @mat C) n ins : osum ins <> 0%nat -> marg U n 0 ins (repeat 0%nat n) = 0.
+  Proof.
+    intros Hne. unfold marg. rewrite osum_repeat0, Nat.sub_0_r. cbn [focks].
+    rewrite (proj2 (Nat.eqb_neq _ _) Hne). reflexivity.
+  Qed.
+
+  Lemma prob_of_vacuum (U : @mat C) m : prob_of rops U (repeat 0%nat m) (repeat 0%nat m) = 1.
+  Proof.
+    rewrite prob_of_eq. unfold expand. rewrite expand_from_repeat0, fact_prod_repeat0.
+    unfold cnorm2. simpl. field.
+  Qed.
+
+  (* ---------------- (E) eps = 0: both back ends return the marginal ---------------- *)
+  Theorem dist_exact_eps0 b n l (U : @mat C) ins k :
+    lunit cops (n + l) U -> length ins = n -> length k = n ->
+    pd_val (full_dist rops b 0 n l U ins) k = marg U n l ins k.
+  Proof.
+    intros HU Hl Hk. destruct (Nat.eq_dec (osum k) 0) as [Hz|Hnz].
+    2:{ rewrite dist_value_nonvac by assumption. apply margt_0. }
+    assert (Ek : k = repeat 0%nat n) by (rewrite (osum_zero k Hz), Hk; reflexivity). subst k. clear Hz Hk.
+    rewrite full_dist_cases. destruct (Nat.eqb_spec (osum ins) 0) as [Hi|Hi].
+    - (* vacuum input *)
+      unfold pd_val. cbn [pd_get]. rewrite nlist_eqb_refl.
+      unfold marg. rewrite Hi, osum_repeat0. cbn [Nat.sub]. rewrite focks_zero, sumR_cons, sumR_nil.
+      rewrite (osum_zero ins Hi), Hl, <- !repeat_app, prob_of_vacuum. lra.
+    - pose proof (fock_sums_enum_pad ins n l Hl Hi) as HL. destruct b.
+      + (* permanent: the vacuum entry is the complement of the rest *)
+        pose proof (perm_tb_eps0 _ n l U ins HU Hl HL) as Htb.
+        pose proof (perm_pd_val 0 n l U _ _ (repeat 0%nat n) HL (repeat_length _ _)) as Hv.
+        rewrite osum_repeat0 in Hv. cbn [Nat.eqb] in Hv.
+        pose proof (marg_nonneg U n l ins (repeat 0%nat n)) as Hm.
+        unfold perm_final.
+        destruct (klt rops (pd_total rops _) 1) eqn:E1; destruct (l =? 0)%nat eqn:E2; cbn [andb negb].
+        * apply Nat.eqb_eq in E2. subst l. rewrite Hv, marg_vac_lossless by exact Hi. reflexivity.
+        * rewrite pd_set_val, nlist_eqb_refl, Htb. lra.
+        * apply Nat.eqb_eq in E2. subst l. rewrite Hv, marg_vac_lossless by exact Hi. reflexivity.
+        * apply klt_false in E1. rewrite Htb in E1. rewrite Hv. lra.
+      + rewrite slos_pd_val by apply repeat_length. rewrite ins_pad_osum. apply (margt_0 U n l ins (repeat 0%nat n)).
+  Qed.
+
+  Corollary dist_backend_independent n l (U : @mat C) ins k :
+    lunit cops (n + l) U -> length ins = n ->
+    pd_val (full_dist rops Permanent 0 n l U ins) k = pd_val (full_dist rops Slos 0 n l U ins) k.
+  Proof.
+    intros HU Hl. destruct (Nat.eq_dec (length k) n) as [Hk|Hk].
+    - rewrite !dist_exact_eps0 by assumption. reflexivity.
+    - rewrite !pd_val_wrong_length by assumption. reflexivity.
+  Qed.
+
+  (* ---------------- (N) normalisation up to the truncation ---------------- *)
+  Theorem dist_total_bounds b eps n l (U : @mat C) ins :
+    0 <= eps -> lunit cops (n + l) U -> length ins = n ->
+    1 - eps * INR (n_full_states n l ins) <= pd_total rops (full_dist rops b eps n l U ins) <= 1.
+  Proof.
+    intros He HU Hl. unfold n_full_states.
+    assert (Hpos : 0 <= eps * INR (length (focks (n + l) (osum ins)))) by (apply Rmult_le_pos; [exact He|apply pos_INR]).
+    rewrite full_dist_cases. destruct (Nat.eqb_spec (osum ins) 0) as [Hi|Hi].
+    - rewrite pd_total_suml, sumR_cons, sumR_nil. cbn [snd]. lra.
+    - pose proof (fock_sums_enum_pad ins n l Hl Hi) as HL.
+      pose proof (ins_pad_length ins n l Hl) as Hl'. pose proof (ins_pad_osum ins l) as Hs'.
+      rewrite <- Hs' in Hpos |- *.
+      destruct b.
+      + rewrite (perm_final_total n l _ (perm_pd_no_vac eps n l U _ _ HL)).
+        pose proof (perm_tb_le eps _ n l U ins HU Hl HL) as Hle.
+        pose proof (marg_nonneg U n l ins (repeat 0%nat n)) as Hm.
+        destruct (klt rops (pd_total rops _) 1) eqn:E1; destruct (l =? 0)%nat eqn:E2; cbn [andb negb]; try lra.
+        * apply Nat.eqb_eq in E2. subst l. split; [|lra].
+          rewrite perm_tb_lossless by (first [exact HL | rewrite Hs'; exact Hi]).
+          pose proof (enum_thr_bounds eps (n + 0) U _ _ He HU Hl' HL) as B. lra.
+        * apply Nat.eqb_eq in E2. subst l. split; [|lra].
+          rewrite perm_tb_lossless by (first [exact HL | rewrite Hs'; exact Hi]).
+          pose proof (enum_thr_bounds eps (n + 0) U _ _ He HU Hl' HL) as B. lra.
+        * apply klt_false in E1. lra.
+      + rewrite slos_pd_total.
+        pose proof (enum_thr_bounds eps (n + l) U _ _ He HU Hl' (slos_keys_enum (n + l) U _)) as B.
+        exact B.
+  Qed.
+
+  Corollary dist_total_eps0 b n l (U : @mat C) ins :
+    lunit cops (n + l) U -> length ins = n -> pd_total rops (full_dist rops b 0 n l U ins) = 1.
+  Proof.
+    intros HU Hl. pose proof (dist_total_bounds b 0 n l U ins (Rle_refl 0) HU Hl) as B. lra.
+  Qed.
+End FullDistUnitary.
+
+(* ------------------------------------------------------------------ *)
+(* pdist_calc (State variant): mixtures of inputs                      *)
+(* ------------------------------------------------------------------ *)
+Section Mixture.
+  Local Open Scope R_scope.
+  Notation pdict := (@pdict R).
+
+  (* the inputs of pdist_calc: states of n modes with weights >= 0 summing to 1 *)
+  Definition mixture (n : nat) (inputs : pdict) : Prop :=
+    (forall ip, In ip inputs -> length (fst ip) = n /\ 0 <= snd ip) /\ pd_total rops inputs = 1.
+
+  (* the expectation of a quantity over the mixture *)
+  Definition mix (inputs : pdict) (f : list nat -> R) : R := suml rops inputs (fun ip => f (fst ip) * snd ip).
+
+  Definition mix_fold (sub : list nat -> pdict) (inputs : pdict) (d0 : pdict) : pdict :=
+    fold_left (fun pd ip =>
+                 fold_left (fun pd sp => pd_add rops pd (fst sp) (kmul rops (snd sp) (snd ip))) (sub (fst ip)) pd)
+              inputs d0.
+
+  Lemma inner_eq (S : pdict) (w : R) (pd : pdict) :
+    fold_left (fun pd sp => pd_add rops pd (fst sp) (kmul rops (snd sp) w)) S pd =
+    pd_fold (fun _ => true) (fun sp => fst sp) (fun sp => snd sp * w) S pd.
+  Proof. reflexivity. Qed.
+
+  Lemma mix_fold_val sub inputs d0 t :
+    (forall ip, In ip inputs -> NoDup (pd_keys (sub (fst ip)))) ->
+    pd_val (mix_fold sub inputs d0) t = pd_val d0 t + mix inputs (fun ins => pd_val (sub ins) t).
+  Proof.
+    unfold mix_fold, mix. revert d0. induction inputs as [|ip inputs IH]; intros d0 H; cbn [fold_left].
+    - rewrite sumR_nil. lra.
+    - rewrite IH by (intros; apply H; right; assumption). rewrite sumR_cons, inner_eq, pd_fold_val.
+      assert (E : suml rops (sub (fst ip)) (fun x => if true && nlist_eqb (fst x) t then snd x * snd ip else 0) =
+                  pd_val (sub (fst ip)) t * snd ip).
+      { rewrite <- (sumR_pick _ t (H ip (or_introl eq_refl))), <- sumR_mul_r. apply sumR_ext. intros x _.
+        cbn [andb]. destruct (nlist_eqb (fst x) t); lra. }
+      rewrite E. lra.
+  Qed.
+
+  Lemma mix_fold_total sub inputs d0 :
+    pd_total rops (mix_fold sub inputs d0) = pd_total rops d0 + mix inputs (fun ins => pd_total rops (sub ins)).
+  Proof.
+    unfold mix_fold, mix. revert d0. induction inputs as [|ip inputs IH]; intros d0; cbn [fold_left].
+    - rewrite sumR_nil. lra.
+    - rewrite IH, sumR_cons, inner_eq, pd_fold_total, (pd_total_suml (sub (fst ip))), <- sumR_mul_r. lra.
+  Qed.
+
+  Lemma mix_fold_keys sub inputs d0 t :
+    In t (pd_keys (mix_fold sub inputs d0)) <->
+    In t (pd_keys d0) \/ exists ip, In ip inputs /\ In t (pd_keys (sub (fst ip))).
+  Proof.
+    unfold mix_fold. revert d0. induction inputs as [|ip inputs IH]; intros d0; cbn [fold_left].
+    - split; [intros H; left; exact H|]. intros [H|[ip [[] _]]]. exact H.
+    - rewrite IH, inner_eq, pd_fold_keys. split.
+      + intros [[H|[x [Hx [_ Hk]]]]|[ip' [Hip Hin]]].
+        * left. exact H.
+        * right. exists ip. split; [left; reflexivity|]. subst t. apply in_map. exact Hx.
+        * right. exists ip'. split; [right; exact Hip|exact Hin].
+      + intros [H|[ip' [[Hip|Hip] Hin]]].
+        * left. left. exact H.
+        * subst ip'. left. right. apply in_map_iff in Hin. destruct Hin as [x [Hk Hx]].
+          exists x. split; [exact Hx|]. split; [reflexivity|exact Hk].
+        * right. exists ip'. split; assumption.
+  Qed.
+
+  Lemma mix_fold_nodup sub inputs d0 : NoDup (pd_keys d0) -> NoDup (pd_keys (mix_fold sub inputs d0)).
+  Proof.
+    unfold mix_fold. revert d0. induction inputs as [|ip inputs IH]; intros d0 H; cbn [fold_left]; [exact H|].
+    apply IH. rewrite inner_eq. apply pd_fold_nodup. exact H.
+  Qed.
+
+  Lemma mix_fold_nonneg sub inputs d0 :
+    pd_nonneg d0 -> (forall ip, In ip inputs -> 0 <= snd ip /\ pd_nonneg (sub (fst ip))) ->
+    pd_nonneg (mix_fold sub inputs d0).
+  Proof.
+    unfold mix_fold. revert d0. induction inputs as [|ip inputs IH]; intros d0 H Hi; cbn [fold_left]; [exact H|].
+    apply IH; [|intros; apply Hi; right; assumption]. rewrite inner_eq.
+    destruct (Hi ip (or_introl eq_refl)) as [Hw Hs].
+    apply pd_fold_nonneg; [exact H|]. intros [k v] Hin _. cbn [snd].
+    apply Rmult_le_pos; [apply (Hs k v Hin)|exact Hw].
+  Qed.
+
+  Lemma mix_le inputs f g :
+    (forall ip, In ip inputs -> 0 <= snd ip /\ f (fst ip) <= g (fst ip)) -> mix inputs f <= mix inputs g.
+  Proof.
+    intros H. unfold mix. apply sumR_le. intros ip Hin. destruct (H ip Hin) as [Hw Hfg].
+    apply Rmult_le_compat_r; assumption.
+  Qed.
+
+  Lemma mix_ext inputs f g : (forall ip, In ip inputs -> f (fst ip) = g (fst ip)) -> mix inputs f = mix inputs g.
+  Proof. intros H. unfold mix. apply sumR_ext. intros ip Hin. rewrite (H ip Hin). reflexivity. Qed.
+
+  Lemma mix_const inputs c : mix inputs (fun _ => c) = c * pd_total rops inputs.
+  Proof.
+    unfold mix. rewrite pd_total_suml.
+    exact (suml_mul_l (o:=rops) inputs c (fun kv => snd kv)).
+  Qed.
+
+  Lemma pdist_calc_eq b eps n l (U : @mat C) inputs :
+    pdist_calc rops b eps n l U inputs =
+    let pd := mix_fold (full_dist rops b eps n l U) inputs [] in
+    if klt rops (pd_total rops pd) 1 && negb (l =? 0)%nat
+    then pd_set pd (repeat 0%nat n) (pd_val pd (repeat 0%nat n) + (1 - pd_total rops pd)) else pd.
+  Proof. reflexivity. Qed.
+
+  Lemma pdist_calc_overwrite_eq b eps n l (U : @mat C) inputs :
+    pdist_calc_overwrite rops b eps n l U inputs =
+    let pd := mix_fold (full_dist rops b eps n l U) inputs [] in
+    if klt rops (pd_total rops pd) 1 && negb (l =? 0)%nat
+    then pd_set pd (repeat 0%nat n) (1 - pd_total rops pd) else pd.
+  Proof. reflexivity. Qed.
+
+  Section Fixed.
+    Variables (b : backend) (eps : R) (n l : nat) (U : @mat C) (inputs : pdict).
+    Hypothesis Hmix : mixture n inputs.
+    Let pd := mix_fold (full_dist rops b eps n l U) inputs [].
+
+    Lemma mixture_nodup ip : In ip inputs -> NoDup (pd_keys (full_dist rops b eps n l U (fst ip))).
+    Proof. intros Hin. apply dist_keys. apply (proj1 Hmix ip Hin). Qed.
+
+    Lemma mixture_nonempty : inputs <> [].
+    Proof. intros E. destruct Hmix as [_ H]. rewrite E, pd_total_nil in H. lra. Qed.
+
+    (* the accumulated dictionary before the vacuum step *)
+    Lemma pre_val t : pd_val pd t = mix inputs (fun ins => pd_val (full_dist rops b eps n l U ins) t).
+    Proof. unfold pd. rewrite mix_fold_val by exact mixture_nodup. rewrite pd_val_nil. lra. Qed.
+
+    Lemma pre_total : pd_total rops pd = mix inputs (fun ins => pd_total rops (full_dist rops b eps n l U ins)).
+    Proof. unfold pd. rewrite mix_fold_total, pd_total_nil. lra. Qed.
+
+    Lemma pre_total_le : 0 <= eps -> lunit cops (n + l) U -> pd_total rops pd <= 1.
+    Proof.
+      intros He HU. rewrite pre_total. rewrite <- (proj2 Hmix), <- (Rmult_1_l (pd_total rops inputs)), <- mix_const.
+      apply mix_le. intros ip Hin. destruct (proj1 Hmix ip Hin) as [Hl Hw]. split; [exact Hw|].
+      apply (dist_total_bounds b eps n l U (fst ip) He HU Hl).
+    Qed.
+
+    Lemma pre_total_ge (M : nat) :
+      0 <= eps -> lunit cops (n + l) U ->
+      (forall ip, In ip inputs -> (n_full_states n l (fst ip) <= M)%nat) ->
+      1 - eps * INR M <= pd_total rops pd.
+    Proof.
+      intros He HU HM. rewrite pre_total.
+      assert (E : 1 - eps * INR M = mix inputs (fun _ => 1 - eps * INR M)) by (rewrite mix_const, (proj2 Hmix); lra).
+      rewrite E. apply mix_le. intros ip Hin. destruct (proj1 Hmix ip Hin) as [Hl Hw]. split; [exact Hw|].
+      pose proof (dist_total_bounds b eps n l U (fst ip) He HU Hl) as B.
+      assert (INR (n_full_states n l (fst ip)) <= INR M) by (apply le_INR, HM, Hin).
+      assert (eps * INR (n_full_states n l (fst ip)) <= eps * INR M) by (apply Rmult_le_compat_l; assumption).
+      lra.
+    Qed.
+
+    (* ---------------- totals ---------------- *)
+    Theorem pdist_total_lossy :
+      0 <= eps -> lunit cops (n + l) U -> l <> 0%nat -> pd_total rops (pdist_calc rops b eps n l U inputs) = 1.
+    Proof.
+      intros He HU Hlne. rewrite pdist_calc_eq. cbv zeta. fold pd.
+      pose proof (pre_total_le He HU) as Hle.
+      destruct (klt rops (pd_total rops pd) 1) eqn:E1; cbn [andb].
+      - rewrite (proj2 (Nat.eqb_neq _ _) Hlne). cbn [negb]. rewrite pd_set_total. lra.
+      - apply klt_false in E1. lra.
+    Qed.
+
+    Theorem pdist_total_bounds (M : nat) :
+      0 <= eps -> lunit cops (n + l) U ->
+      (forall ip, In ip inputs -> (n_full_states n l (fst ip) <= M)%nat) ->
+      1 - eps * INR M <= pd_total rops (pdist_calc rops b eps n l U inputs) <= 1.
+    Proof.
+      intros He HU HM. rewrite pdist_calc_eq. cbv zeta. fold pd.
+      pose proof (pre_total_le He HU) as Hle. pose proof (pre_total_ge M He HU HM) as Hge.
+      assert (Hpos : 0 <= eps * INR M) by (apply Rmult_le_pos; [exact He|apply pos_INR]).
+      destruct (klt rops (pd_total rops pd) 1 && negb (l =? 0)%nat); [|lra].
+      rewrite pd_set_total. lra.
+    Qed.
+
+    (* ---------------- signs and keys ---------------- *)
+    Theorem pdist_nonneg : pd_nonneg (pdist_calc rops b eps n l U inputs).
+    Proof.
+      rewrite pdist_calc_eq. cbv zeta. fold pd.
+      assert (Hpd : pd_nonneg pd).
+      { apply mix_fold_nonneg; [intros ? ? []|]. intros ip Hin. split; [apply (proj1 Hmix ip Hin)|apply dist_nonneg]. }
+      destruct (klt rops (pd_total rops pd) 1) eqn:E1; cbn [andb]; [|exact Hpd].
+      destruct (negb (l =? 0)%nat); [|exact Hpd]. apply klt_true in E1.
+      apply pd_set_nonneg; [exact Hpd|]. pose proof (pd_val_nonneg pd (repeat 0%nat n) Hpd). lra.
+    Qed.
+
+    Lemma pre_keys k :
+      In k (pd_keys pd) -> length k = n /\ exists ip, In ip inputs /\ (osum k <= osum (fst ip))%nat.
+    Proof.
+      intros Hin. unfold pd in Hin. apply mix_fold_keys in Hin. destruct Hin as [[]|[ip [Hip Hin]]].
+      destruct (proj1 Hmix ip Hip) as [Hl _].
+      apply (proj2 (dist_keys b eps n l U (fst ip) Hl)) in Hin. destruct Hin as [H1 H2].
+      split; [exact H1|]. exists ip. split; assumption.
+    Qed.
+
+    Theorem pdist_keys :
+      NoDup (pd_keys (pdist_calc rops b eps n l U inputs)) /\
+      forall k, In k (pd_keys (pdist_calc rops b eps n l U inputs)) ->
+                length k = n /\ exists ip, In ip inputs /\ (osum k <= osum (fst ip))%nat.
+    Proof.
+      rewrite pdist_calc_eq. cbv zeta. fold pd.
+      assert (Hnd : NoDup (pd_keys pd)) by (apply mix_fold_nodup; constructor).
+      destruct (klt rops (pd_total rops pd) 1 && negb (l =? 0)%nat).
+      - split; [apply pd_set_nodup; exact Hnd|]. intros k Hin. apply pd_set_keys in Hin.
+        destruct Hin as [Hin| ->]; [apply pre_keys; exact Hin|].
+        rewrite repeat_length, osum_repeat0. split; [reflexivity|].
+        pose proof mixture_nonempty as Hne. destruct inputs as [|ip rest]; [contradiction|].
+        exists ip. split; [left; reflexivity|lia].
+      - split; [exact Hnd|]. intros k Hin. apply pre_keys. exact Hin.
+    Qed.
+
+    (* ---------------- values ---------------- *)
+    Theorem pdist_value_nonvac k :
+      length k = n -> osum k <> 0%nat ->
+      pd_val (pdist_calc rops b eps n l U inputs) k = mix inputs (fun ins => margt eps U n l ins k).
+    Proof.
+      intros Hk Hnz. rewrite pdist_calc_eq. cbv zeta. fold pd.
+      assert (Hv : pd_val pd k = mix inputs (fun ins => margt eps U n l ins k)).
+      { rewrite pre_val. apply mix_ext. intros ip Hin. apply dist_value_nonvac; [apply (proj1 Hmix ip Hin)|exact Hk|exact Hnz]. }
+      destruct (klt rops (pd_total rops pd) 1 && negb (l =? 0)%nat); [|exact Hv].
+      rewrite pd_set_val, (proj2 (nlist_eqb_neq (repeat 0%nat n) k)); [exact Hv|].
+      intros E. apply Hnz. rewrite <- E. apply osum_repeat0.
+    Qed.
+
+    Theorem pdist_upper k :
+      length k = n -> osum k <> 0%nat ->
+      pd_val (pdist_calc rops b eps n l U inputs) k <= mix inputs (fun ins => marg U n l ins k).
+    Proof.
+      intros Hk Hnz. rewrite pdist_value_nonvac by assumption. apply mix_le. intros ip Hin.
+      split; [apply (proj1 Hmix ip Hin)|apply margt_le].
+    Qed.
+  End Fixed.
+
+  (* eps = 0: the mixture of the marginals, for every pattern *)
+  Theorem pdist_exact_eps0 b n l (U : @mat C) inputs k :
+    mixture n inputs -> lunit cops (n + l) U -> length k = n ->
+    pd_val (pdist_calc rops b 0 n l U inputs) k = mix inputs (fun ins => marg U n l ins k).
+  Proof.
+    intros Hmix HU Hk. rewrite pdist_calc_eq. cbv zeta.
+    set (pd := mix_fold (full_dist rops b 0 n l U) inputs []).
+    assert (Ht : pd_total rops pd = 1).
+    { unfold pd. rewrite (pre_total b 0 n l U inputs).
+      rewrite (mix_ext inputs _ (fun _ => 1)).
+      - rewrite mix_const, (proj2 Hmix). lra.
+      - intros ip Hin. apply dist_total_eps0; [exact HU|apply (proj1 Hmix ip Hin)]. }
+    rewrite Ht. replace (klt rops 1 1) with false by (symmetry; apply klt_false; lra). cbn [andb].
+    unfold pd. rewrite (pre_val b 0 n l U inputs Hmix). apply mix_ext. intros ip Hin.
+    apply dist_exact_eps0; [exact HU|apply (proj1 Hmix ip Hin)|exact Hk].
+  Qed.
+End Mixture.
+
+(* ------------------------------------------------------------------ *)
+(* reading aids                                                        *)
+(* ------------------------------------------------------------------ *)
+(* the count of full output states is the size of the basis the code enumerates *)
+Lemma n_full_states_fock_sums n l ins :
+  (0 < n + l)%nat -> n_full_states n l ins = length (fock_sums (n + l) (osum ins)).
+Proof.
+  intros H. unfold n_full_states. apply Permutation_length.
+  apply (fock_enum_perm _ _ (n + l) (osum ins) (focks_enum _ _) (fock_sums_enum _ _ H)).
+Qed.
+
+(* focks enumerates exactly the occupation lists of l modes holding m photons *)
+Lemma focks_exact l m t : In t (focks l m) <-> length t = l /\ osum t = m.
+Proof. apply focks_spec. Qed.
+
+Lemma marg_identity_example : marg (mid cops) 1 0 [1] [1] = 1%R.
+Proof.
+  unfold marg. simpl. unfold prob_of, amp_perm, amp_factor, kofnat, expand. simpl.
+  unfold cnorm2, cmul. simpl. field.
+Qed.
+
+Lemma mixture_example : mixture 2 [([1; 0], (1 / 2)%R); ([0; 0], (1 / 2)%R)].
+Proof.
+  split.
+  - intros ip [<-|[<-|[]]]; simpl; split; try reflexivity; lra.
+  - rewrite pd_total_suml. simpl. lra.
+Qed.
+
+(* ------------------------------------------------------------------ *)
+(* C03: Simulator.simulate(outputs=None) on a lossless herald-free      *)
+(* circuit returns a unit vector                                       *)
+(* ------------------------------------------------------------------ *)
+Section SimUnit.
+  Local Open Scope R_scope.
+
+  (* |amplitude|^2 of an entry (permanent, product of factorials) of the result array *)
+  Definition amp_prob (e : C * nat) : R := cnorm2 rops (fst e) * / IZR (Z.of_nat (snd e)).
+
+  Lemma zsum_znat i : Forall (fun x => (0 <= x)%Z) i -> Z.to_nat (zsum i) = osum (znat i).
+  Proof.
+    induction 1 as [|x i Hx Hi IH]; [reflexivity|].
+    assert (Hs : (0 <= zsum i)%Z) by (clear IH; induction Hi as [|y i Hy Hi IH]; simpl; lia).
+    simpl zsum. simpl znat. rewrite osum_cons, <- IH, Z2Nat.inj_add by lia. reflexivity.
+  Qed.
+
+  Lemma znat_of_nat t : znat (map Z.of_nat t) = t.
+  Proof.
+    unfold znat. rewrite map_map. induction t as [|x t IH]; [reflexivity|]. simpl.
+    rewrite Nat2Z.id, IH. reflexivity.
+  Qed.
+
+  Lemma Forall2_eq_map {A B} (f : A -> B) l r : Forall2 (fun a b => b = f a) l r -> r = map f l.
+  Proof. induction 1 as [|a b l r E _ IH]; [reflexivity|]. simpl. rewrite E, IH. reflexivity. Qed.
+
+  Theorem simulate_unit_vector N (U : @mat C) i outs rows :
+    (0 < N)%nat -> unitary cops N U ->
+    simulate rops N 0 U [] [] N [i] None = Ok (outs, rows) ->
+    exists row, rows = [row] /\ length row = length outs /\ suml rops row amp_prob = 1.
+  Proof.
+    intros HN HU H.
+    assert (Hv : SimP.valid_state N i).
+    { unfold simulate in H. destruct (check_states N [i]) as [[]|e] eqn:E; [|discriminate].
+      apply SimP.check_states_ok in E. inversion E. assumption. }
+    destruct Hv as [Hlen Hpos].
+    destruct (SimP.simulate_entries rops _ _ _ _ _ _ _ _ _ _ H) as [Ho Hr]. revert Ho.
+    inversion Hr as [|i' row l' rows' Hrow Hrest]; subst. inversion Hrest; subst. clear Hr Hrest. intros Ho.
+    destruct Hrow as [fi [Hfi Hrow]]. simpl in Hfi. injection Hfi as <-.
+    exists row. split; [reflexivity|].
+    assert (E : row = map (fun x => (amp_perm cops U (znat i ++ repeat 0%nat 0) (znat x ++ repeat 0%nat 0),
+                                     amp_factor (znat i ++ repeat 0%nat 0) (znat x ++ repeat 0%nat 0))) outs).
+    { apply Forall2_eq_map. eapply SimP.Forall2_impl; [|exact Hrow]. intros x e [fx [Hfx He]].
+      simpl in Hfx. injection Hfx as <-. exact He. }
+    split; [rewrite E, map_length; reflexivity|].
+    rewrite E, Ho. cbn [hd]. rewrite <- sumR_map, <- sumR_map.
+    rewrite (zsum_znat i Hpos).
+    rewrite <- (fock_unitarity (length i) U (znat i) HN HU) by (unfold znat; apply map_length).
+    apply sumR_ext. intros t _. cbn [repeat]. rewrite !app_nil_r, znat_of_nat. reflexivity.
+  Qed.
+End SimUnit.
+
+(* ------------------------------------------------------------------ *)
+(* regression witness for the repaired defect F1 (exact rationals)     *)
+(* ------------------------------------------------------------------ *)
+(* One photon into mode 0 of: a beam splitter on modes 0,1 with transmission
+   amplitude s = 2ab/(a^2+b^2), a = 10^5, b = 1 (s ~ 2e-5, s^2 ~ 4e-10 < 1e-9),
+   then a loss element on mode 0 (amplitudes 3/5 kept, 4/5 into the loss mode 2).
+   The slos back end drops the state |0,1,0> (probability s^2 < eps) and already
+   holds the vacuum pattern with probability (4/5)^2 c^2, so the accumulated
+   total is c^2 < 1; the old code then REPLACED the vacuum entry by 1 - c^2 =
+   s^2 and returned a distribution of total (3/5)^2 c^2 + s^2 ~ 0.36; the
+   repaired code ADDS the missing s^2 and returns total 1. *)
+From Coq Require Import QArith Qcanon.
+From LW Require Import Base.QI2.
+
+Module F1Witness.
+  Definition q (a b : Z) : Qc := Q2Qc (Qmake a (Z.to_pos b)).
+  Definition re (x : Qc) : Qc * Qc := (x, Q2Qc 0).
+  Definition c : Qc := q 9999999999 10000000001.
+  Definition s : Qc := q 200000 10000000001.
+  Definition t : Qc := q 3 5.
+  Definition r : Qc := q 4 5.
+  Definition eps : Qc := q 1 1000000000.
+  Definition U : @mat (Qc * Qc) :=
+    of_rows (cplx qcops)
+            [[re (t * c)%Qc; re (- (t * s))%Qc; re (- r)%Qc];
+             [re s;          re c;              re (q 0 1)];
+             [re (r * c)%Qc; re (- (r * s))%Qc; re t]].
+  Definition unitaryb (n : nat) (V : @mat (Qc * Qc)) : bool :=
+    forallb (fun i => forallb (fun j =>
+       ceqb qcops (mmul (cplx qcops) n (madj (cplx qcops) V) V i j) (mid (cplx qcops) i j) &&
+       ceqb qcops (mmul (cplx qcops) n V (madj (cplx qcops) V) i j) (mid (cplx qcops) i j))
+       (seq 0 n)) (seq 0 n).
+  Definition input : @pdict Qc := [([1; 0]%nat, q 1 1)].
+  Definition old_dist := pdist_calc_overwrite qcops Slos eps 2 1 U input.
+  Definition new_dist := pdist_calc qcops Slos eps 2 1 U input.
+End F1Witness.
+
+Theorem pdist_overwrite_loses_mass :
+  exists (U : @mat (Qc * Qc)) (inputs : @pdict Qc) (eps : Qc),
+    F1Witness.unitaryb 3 U = true /\ pd_total qcops inputs = Q2Qc 1 /\
+    (* old behaviour: total below one half *)
+    klt qcops (pd_total qcops (pdist_calc_overwrite qcops Slos eps 2 1 U inputs)) (F1Witness.q 1 2) = true /\
+    (* repaired behaviour: total exactly one *)
+    keqb qcops (pd_total qcops (pdist_calc qcops Slos eps 2 1 U inputs)) (Q2Qc 1) = true.
+Proof.
+  exists F1Witness.U, F1Witness.input, F1Witness.eps. vm_compute.
+  repeat split; apply Qc_is_canon; reflexivity.
+Qed.
